@@ -348,6 +348,18 @@ class C13:
                 tail2 += ['showxml b%s %s %s' % (d, env, df), 'perturb %d' % ctx.rng.randrange(1, 1 << 30),
                           'showxml b%s %s %s' % (d, env, df)]
             out.append(first + tail1 + second + tail2 + ['end'])
+        # (d) call sequences in which a call fails part-way (updateBlockFormatDurations on scenes with a channel
+        #     format it cannot fix): what the failed call leaves behind must not depend on the layout either
+        import heapspecs
+        for _ in range(max(20, n // 4)):
+            c = [l for l in heapspecs.scene_c16(ctx.rng) if l not in ('snapshot', 'end')]
+            chans = [l.split()[1] for l in c if l.startswith('new ') and l.split()[2] == 'chan']
+            if len(chans) > 1 and ctx.rng.random() < 0.6:
+                victim = ctx.rng.choice(chans)
+                c = [l for l in c if not l.startswith('block %s ' % victim)]
+            first = ['perturb %d' % ctx.rng.randrange(1, 1 << 30)] + rename_handles(c, 'a') + ['showxml ad0 ebu 0']
+            second = ['perturb %d' % ctx.rng.randrange(1, 1 << 30)] + rename_handles(c, 'b') + ['showxml bd0 ebu 0']
+            out.append(first + second + ['end'])
         return out
 
     @staticmethod
